@@ -176,3 +176,61 @@ theorem becomeLeader_log (n : Node) (now : Nat) :
 
 end Node
 end Raft
+
+namespace Raft
+namespace Node
+
+theorem nextConfiguration_lastApplied (m : Node) (now : Nat) (y : Option Config) :
+    (m.nextConfiguration now y).1.lastApplied = m.lastApplied := by
+  unfold nextConfiguration
+  cases y with
+  | none => rfl
+  | some c =>
+    simp only
+    split
+    · rfl
+    · split <;> rfl
+
+theorem applyConfiguration_lastApplied (n : Node) (now : Nat) (c : Config) :
+    (n.applyConfiguration now c).1.lastApplied = n.lastApplied := by
+  unfold applyConfiguration
+  cases n.committed with
+  | none => exact nextConfiguration_lastApplied _ _ _
+  | some cc =>
+    simp only
+    split
+    · rfl
+    · exact nextConfiguration_lastApplied _ _ _
+
+/-- What each outcome of an apply-loop iteration says about the applied index and the
+    kind of the entry consumed. -/
+def ApplyOutcomeOK (n : Node) (r : Node × List Effect × Applied) : Prop :=
+  match r.2.2 with
+  | .none => r.1.lastApplied = n.lastApplied
+  | .noop _ => r.1.lastApplied = n.lastApplied + 1 ∧ ∃ e, n.log.get? (n.lastApplied + 1) = some e ∧ e.kind = kNoop
+  | .config _ _ _ => r.1.lastApplied = n.lastApplied + 1 ∧ ∃ e, n.log.get? (n.lastApplied + 1) = some e ∧ e.kind = kConfig
+  | .op e _ => r.1.lastApplied = n.lastApplied + 1 ∧ n.log.get? (n.lastApplied + 1) = some e ∧ e.kind = kOp
+
+theorem applyStep_kinds (n : Node) (now : Nat) : ApplyOutcomeOK n (n.applyStep now) := by
+  unfold applyStep
+  split
+  · cases hg : n.log.get? (n.lastApplied + 1) with
+    | none => simp [ApplyOutcomeOK]
+    | some e =>
+      simp only
+      split
+      · rename_i hk; exact ⟨rfl, e, hg, hk⟩
+      · split
+        · rename_i hk
+          cases hcfg : e.cfg with
+          | none => simp [ApplyOutcomeOK]
+          | some c =>
+            simp only [ApplyOutcomeOK]
+            exact ⟨by rw [applyConfiguration_lastApplied], e, hg, hk⟩
+        · split
+          · rename_i hk; exact ⟨rfl, hg, hk⟩
+          · simp [ApplyOutcomeOK]
+  · simp [ApplyOutcomeOK]
+
+end Node
+end Raft
